@@ -254,8 +254,54 @@ def _mk_container_meta():
     return setup, fn
 
 
+def _mk_strict_narrow():
+    """a narrower definition of a record name that other operations define with more fields, written in strict mode
+    with a datum carrying the extra fields: must be refused whatever was written before"""
+    narrow = {"type": "record", "name": "game.Card", "fields": [
+        {"name": "s", "type": {"type": "enum", "name": "game.Suit", "symbols": ["SPADES", "HEARTS", "CLUBS"]}}, {"name": "n", "type": "int"}]}
+
+    def setup():
+        return dict(schema=_real_parse(narrow))
+
+    def fn(world, ctx):
+        W = world.mod("fastavro._write_py")
+        out = []
+        for datum in ({"s": "SPADES", "n": 5, "s2": "HEARTS", "ss": ["CLUBS"]}, {"s": "SPADES", "n": 5}):
+            fo = io.BytesIO()
+            try:
+                W.schemaless_writer(fo, ctx["schema"], datum, strict=True)
+                out.append(fo.getvalue())
+            except Exception as e:
+                out.append(type(e).__name__)
+        return out
+    return setup, fn
+
+
+def _mk_writer_reuse():
+    """a Writer object that goes on after flush(): write, flush, write, flush"""
+    def setup():
+        return dict(schema=_real_parse(REC_W))
+
+    def fn(world, ctx):
+        W, R = world.mod("fastavro._write_py"), world.mod("fastavro._read_py")
+        fo = io.BytesIO()
+        w = W.Writer(fo, ctx["schema"], sync_marker=b"0123456789abcdef")
+        w.write(REC_D)
+        w.flush()
+        w.write(REC_D2)
+        w.flush()
+        w.write(REC_D)
+        w.flush()
+        return fo.getvalue(), repr(list(R.reader(io.BytesIO(fo.getvalue()))))
+    return setup, fn
+
+
 def _all_ops():
     L = _ops() + _twins()
+    su, fn = _mk_strict_narrow()
+    L.append(Op("write_strict_narrow", su, fn, "strict mode with a narrower definition of a name defined elsewhere with more fields"))
+    su, fn = _mk_writer_reuse()
+    L.append(Op("writer_reuse_after_flush", su, fn, "Writer used on after flush()"))
     su, fn = _mk_container_meta()
     L.append(Op("container_metadata", su, fn, "user metadata dictionary reused for two files"))
     rec_g = dict(REC_W, fields=REC_W["fields"] + [{"name": "addr2", "type": "Addr"}, {"name": "k2", "type": "shop.Kind"}])
